@@ -139,6 +139,8 @@ Checks(o) ==
                           /\ SiblingTomb(e.k) THEN "!F8a"
                   ELSE IF conf.checkVHash THEN "!F8b" ELSE "" IN
        (IF e.res = want THEN {} ELSE {<<sid, e.n, "C13_Incr" \o tag>>})
+  ELSE IF e.a = "Counters" THEN
+       (IF \A i \in 1..Len(e.d) : e.d[i] = 0 THEN {} ELSE {<<sid, e.n, "C12_Zero">>})
   ELSE IF e.a = "GCStart" THEN
        \* C17 range clause: the range the code resolved equals RangeOf
        (IF e.second \/ ~e.agesure \/ (o.aux.ok /\ e.rb = o.aux.b /\ e.re = o.aux.e) THEN {} ELSE {<<sid, e.n, "C17_Range">>})
@@ -443,6 +445,12 @@ TrReadAll ==
   /\ IsEv("ReadAll") /\ Quiet /\ Adv /\ sid' = sid /\ KvSame
   /\ Settle /\ obs' = [e |-> Ev, pre |-> NoKv, aux |-> NoAux] /\ UNCHANGED vars
 
+\* buffer accounting at quiescence (C12 seen from the store): after the scenario's final close the four counters
+\* (SetData, GetData, FlushData, C allocations: count and size each) are back where they were when it started
+TrCounters ==
+  /\ IsEv("Counters") /\ Adv /\ sid' = sid /\ KvSame
+  /\ Settle /\ obs' = [e |-> Ev, pre |-> NoKv, aux |-> NoAux] /\ UNCHANGED vars
+
 TrEnd ==
   /\ IsEv("End") /\ Quiet /\ Adv /\ sid' = sid /\ KvSame
   /\ Settle /\ obs' = NoObs /\ UNCHANGED vars
@@ -450,7 +458,7 @@ TrEnd ==
 \* an event this specification has no action for: skip it, note it
 TrOther ==
   /\ l <= Len(Trace) /\ Quiet /\ Adv /\ sid' = sid /\ KvSame
-  /\ Trace[l].a \notin {"Reset", "Set", "Get", "Incr", "Flush", "RotFlush", "Close", "Open", "ReadAll", "End", "GC", "GCStart", "GCRefused", "GCAt", "Scan", "Recovered", "Cancel"}
+  /\ Trace[l].a \notin {"Reset", "Set", "Get", "Incr", "Flush", "RotFlush", "Close", "Open", "ReadAll", "End", "GC", "GCStart", "GCRefused", "GCAt", "Scan", "Recovered", "Cancel", "Counters"}
   /\ Stuck("unknown-event")
 
 \* unlogged micro-steps: every process except GC runs its operation to completion; the GC pass advances
@@ -469,7 +477,7 @@ TraceInit ==
 
 TraceNext == TrReset \/ TrSet \/ TrGet \/ TrIncr \/ TrFlush \/ TrRotFlush \/ TrClose \/ TrOpen \/ TrGCStart \/ TrGCRefused
              \/ TrGCAt \/ TrCancel \/ TrGC \/ TrScan \/ TrRecovered
-             \/ TrReadAll \/ TrEnd \/ TrOther \/ Silent
+             \/ TrReadAll \/ TrCounters \/ TrEnd \/ TrOther \/ Silent
 
 TraceSpec == TraceInit /\ [][TraceNext]_<<vars, tvars>>
 
